@@ -66,6 +66,7 @@ pub fn verif_wait_timeout<'a, T>(cv: &Condvar, g: MutexGuard<'a, T>, d: Duration
     -> (r: std::sync::LockResult<(std::sync::MutexGuard<'a, T>, std::sync::WaitTimeoutResult)>)
     requires may_block(),
     ensures r is Ok, guard_of(&(r->Ok_0).0) == guard_of(&g),      // the protected value after the wait is arbitrary: other threads ran
+            acq(&(r->Ok_0).0) == gval(&(r->Ok_0).0),
             wait_budget(&(r->Ok_0).1) == nanos(d),
             final(c).t >= old(c).t + waited(&(r->Ok_0).1),
 { cv.wait_timeout(g, d) }
